@@ -201,14 +201,28 @@ TsF(base, off, ok) == [base |-> base, off |-> off, ok |-> ok]
 TsFormsCore == { TsF("absent", 0, TRUE), TsF("zero", 0, TRUE), TsF("zero", 1, TRUE), TsF("zero", -1, TRUE),
                  TsF("maxfit", 0, TRUE), TsF("maxfit", 1, FALSE), TsF("minfit", 0, TRUE), TsF("minfit", -1, FALSE),
                  TsF("maxint64", 0, FALSE), TsF("overint64", 0, FALSE), TsF("nondigit", 0, FALSE) }
+               \cup {TsF("multiwrap", o, FALSE) : o \in 0..3} \cup {TsF("lit1700000000000", 1, TRUE)}
+\* "multiwrap": the scaled value overflows int64 by MORE than one wrap: |ts * mult| = k*2^64 + r (+ less than mult),
+\* off = 4*ki + 2*parity + neg with k = <<1, 2, 5>>[ki+1]; parity 0: r = 2^62 (the wrapped product has the sign of ts
+\* and lies inside the valid range), parity 1: r = 2^63 + 2^62 (the wrapped product has the other sign); neg: ts < 0.
+\* Out of range at every precision (with n the text itself is beyond int64).  A sign-only overflow test accepts the
+\* parity-0 ones with a wrapped-around time.
+\* "lit...": millisecond / second / hour-scale literals sent with a coarser precision (off = sign); TsOk has their
+\* exact range table, and the harness re-derives every numeric expectation with math/big (guard against the table).
 TsFormsRich == TsFormsCore \cup { TsF("maxfit", -1, TRUE), TsF("minfit", 1, TRUE), TsF("minint64", 0, FALSE),
                  TsF("minint64", 1, FALSE),     \* MinInt64+1 = MinNanoTime-1: reserved, rejected at every precision
                  TsF("float", 0, FALSE), TsF("plus", 0, FALSE), TsF("minusOnly", 0, FALSE),
                  TsF("leadingZeros", 0, TRUE),  \* (cal) "007" reads as 7
                  TsF("wrap", 0, FALSE) }        \* 2^62+1: product wraps around for every precision but n; n: in range
+               \cup {TsF("multiwrap", o, FALSE) : o \in 0..11}
+               \cup {TsF(b, sg, TRUE) : b \in {"lit1700000000000", "lit18446744074", "lit5124096"}, sg \in {1, -1}}
 Precisions == IF Rich THEN {"n", "u", "ms", "s", "m", "h"} ELSE {"n", "ms", "h"}
 \* with precision n the forms maxint64 / minint64 are out of the range by one or two; "wrap" is in range for n
-TsOk(t, p) == IF t.base = "wrap" THEN p = "n" ELSE t.ok
+TsOk(t, p) == IF t.base = "wrap" THEN p = "n"
+              ELSE IF t.base = "lit1700000000000" THEN p \in {"n", "u", "ms"}        \* 1.7e12 * 1e9 > 2^63
+              ELSE IF t.base = "lit18446744074" THEN p \in {"n", "u", "ms"}          \* * 1e9 = 2^64 + 290448384
+              ELSE IF t.base = "lit5124096" THEN p \in {"n", "u", "ms", "s", "m"}    \* * 3.6e12 = 2^64 + 1526290448384
+              ELSE t.ok
 
 LeadForms == IF Rich THEN {"none", "space", "tab", "nul"} ELSE {"none", "space"}      \* (cal) tab / NUL are skipped like spaces
 Sep1Forms == IF Rich THEN {"space", "spaces", "spaceTab", "tabOnly"} ELSE {"space", "spaces"}
@@ -302,7 +316,9 @@ EndFields == /\ ph = "fields" /\ Fits(Cost(fl # <<>>)) /\ w' = w + Cost(fl # <<>
              /\ UNCHANGED <<lead, mf, pad, tg, s1, fl, ts, pr, s2, tl>>
 Ts(t, p, sep, tail) == /\ ph = "ts"
                        /\ (t.base = "absent" => sep = "space")
-                       /\ LET c == Cost(t.base = "absent") + Cost(p = "n") + Cost(sep = "space") + Cost(tail = "none")
+                       \* timestamp and precision are one element: any (form, precision) other than (absent, n) costs 1,
+                       \* so that every timestamp form meets every precision within a budget of one
+                       /\ LET c == Cost(t.base = "absent" /\ p = "n") + Cost(sep = "space") + Cost(tail = "none")
                           IN Fits(c) /\ w' = w + c
                        /\ ts' = t /\ pr' = p /\ s2' = sep /\ tl' = tail /\ ph' = "done"
                        /\ UNCHANGED <<lead, mf, pad, tg, s1, fl>>
